@@ -311,6 +311,8 @@ static bool run_nm(Rng& rng, const ObjN& o, std::vector<double> start, std::vect
 		overload = 1;
 	uint64_t e0 = ticks("NelderMead.expansion"), c0 = ticks("NelderMead.contraction"), s0 = ticks("NelderMead.shrink"), i0 = ticks("NelderMead.iteration");
 	std::vector<double> res;
+	const std::vector<double> start0 = start, deltas0 = deltas;
+	const std::vector<std::vector<double>> pp0 = pp;
 	{
 		BudgetGuard g(2000000);
 		if(overload == 0)
@@ -320,6 +322,10 @@ static bool run_nm(Rng& rng, const ObjN& o, std::vector<double> start, std::vect
 		else
 			res = M.minimize(pp, func);
 	}
+	// starting point, steps and start simplex are handed over by non-const reference; the caller reuses them (the same start for another objective or
+	// tolerance) and computes "the best of the starting points" from them: they must come back as they were (seeded change C11-r7m1 copied the final
+	// simplex into the argument)
+	require("nd-arguments-come-back-unchanged", start == start0 && deltas == deltas0 && pp == pp0, [&] { return J().i("overload", overload).i("start_changed", start != start0).i("deltas_changed", deltas != deltas0).i("simplex_changed", pp != pp0); });
 	exp_ = ticks("NelderMead.expansion") - e0, con_ = ticks("NelderMead.contraction") - c0, shr_ = ticks("NelderMead.shrink") - s0, its_ = ticks("NelderMead.iteration") - i0;
 	evals	= *cnt;
 	f_final = o(res);
@@ -412,6 +418,15 @@ static void convergence_case(Rng& rng, bool in_regime, bool witness, uint64_t in
 	for(int i = 0; i < n; i++)
 		start[i] = o.c[i] + dist * dir[i] / nr;
 	double edge = in_regime ? dist * rng.loguni(1.0 / 3.0, 30.0) : dist * (witness ? 1e-3 : rng.loguni(1e-4, 0.1));
+	// a start that is already a good estimate of the minimiser, with a step 1e3..1e6 times the remaining distance (steps up to 1e3 are in scope): a long run
+	// of contractions in which the best vertex does not improve (seeded change C11-r7m2 took that for stagnation and returned the start)
+	if(in_regime && !witness && rng.coin(0.12))
+	{
+		edge = rng.loguni(1.0, 1e3);
+		dist = edge / rng.loguni(1e3, 1e6);
+		for(int i = 0; i < n; i++)
+			start[i] = o.c[i] + dist * dir[i] / nr;
+	}
 	for(int i = 0; i < n; i++)
 		deltas[i] = rng.sign() * edge * (in_regime ? rng.uni(1.0, 1.5) : 1.0);
 	double ftol = witness ? 1e-8 : rng.loguni(1e-12, 1e-3);
